@@ -481,6 +481,23 @@ def taikoDeviation (guardN300 : Bool) (impl : Rat → XF) (s : TaikoState) (ghw 
   if guardCount = 0 || XF.le ghw (.fin 0) then none
   else some (XF.div ghw (XF.mul (.fin sqrt2) (erfInv impl pl)))
 
+/-- IEEE `==` (false when NaN is involved) -/
+def XF.ieeeEq (a b : XF) : Bool := XF.le a b && XF.le b a
+
+/-- osu! `OsuPerformanceCalculator::calculate_deviation`: the selection
+`if p_lower_bound == 0.0 || random_value >= 1.0 || deviation > limit_value { deviation = limit_value }`.
+`plb` = `p_lower_bound`, `rv` = `random_value`, `dev` = `great_hit_window / (sqrt 2 · erf_inv plb) · sqrt(1 − rv)`,
+`limit` = `ok_hit_window / sqrt 3`. -/
+def osuDeviationSelect (plb rv dev limit : XF) : XF :=
+  if XF.ieeeEq plb (.fin 0) || XF.le (.fin 1) rv || XF.lt limit dev then limit else dev
+
+/-- `calculate_deviation` returns `None` exactly when `great + ok + meh <= 0.0` (real-valued counts) -/
+def osuDeviationIsSome (great ok meh : Rat) : Bool := !(decide (great + ok + meh ≤ 0))
+
+/-- `calculate_speed_deviation` returns `None` when `total_successful_hits == 0`, else defers -/
+def osuSpeedDeviationIsSome (s : OsuState) (great ok meh : Rat) : Bool :=
+  if s.n300 + s.n100 + s.n50 = 0 then false else osuDeviationIsSome great ok meh
+
 /-! ## 7. `calculate` skeletons: zero hits ⇒ zero pp -/
 
 /-- `powf(·, e)` for a fixed positive exponent as a parameter -/
